@@ -67,9 +67,14 @@ type c01result struct {
 }
 
 func applyMove(p *tak.Position, m tak.Move) c01result {
+	return applyMoveInto(p, m, nil)
+}
+
+// applyMoveInto: MovePreallocated into the caller's buffer (nil = fresh storage)
+func applyMoveInto(p *tak.Position, m tak.Move, buf *tak.Position) c01result {
 	var res c01result
 	panicked, _ := safely(func() {
-		q, err := p.Move(m)
+		q, err := p.MovePreallocated(m, buf)
 		if err != nil {
 			res.class = "ERR"
 		} else {
@@ -86,7 +91,10 @@ func applyMove(p *tak.Position, m tak.Move) c01result {
 // c01Oracle compares the implementation's behaviour with the rules oracle.  Returns "" or
 // a failure class.
 func c01Oracle(p *tak.Position, m tak.Move, res c01result) (string, string) {
-	a := absOf(p)
+	return c01OracleAbs(absOf(p), m, res)
+}
+
+func c01OracleAbs(a *aboard, m tak.Move, res c01result) (string, string) {
 	want := a.rulesMove(m)
 	if want != nil && want.maxHeight() > 64 {
 		return "", "" // outside the documented 64-piece representation limit
@@ -130,7 +138,19 @@ func encAbsBoard(a *aboard) string {
 }
 
 func emitC01(c *ctx, p *tak.Position, m tak.Move) {
-	res := applyMove(p, m)
+	emitC01Into(c, p, m, nil)
+}
+
+func emitC01Into(c *ctx, p *tak.Position, m tak.Move, buf *tak.Position) c01result {
+	before := enc(p)
+	a0 := absOf(p)
+	res := applyMoveInto(p, m, buf)
+	if buf != nil {
+		c.stat("cases_into_reused_buffer", 1)
+		if enc(p) != before || !absOf(p).equalBoard(a0) {
+			c.printf("ORACLE-FAIL source-changed | %s ; %s | source position differs after the call | applying a move never changes the source\n", before, encMove(m))
+		}
+	}
 	c.stat("cases", 1)
 	c.stat("class_"+res.class, 1)
 	if m.IsSlide() && m.Type <= tak.SlideDown {
@@ -145,10 +165,46 @@ func emitC01(c *ctx, p *tak.Position, m tak.Move) {
 		l1 += " " + encAbs(res.next)
 		l2 = enc(res.next)
 	}
-	c.printf("CASE %s ; %s | %s | %s\n", enc(p), encMove(m), l1, l2)
-	if cls, why := c01Oracle(p, m, res); cls != "" {
-		c.printf("ORACLE-FAIL %s | %s ; %s | %s | %s\n", cls, enc(p), encMove(m), l1, why)
+	c.printf("CASE %s ; %s | %s | %s\n", before, encMove(m), l1, l2)
+	if cls, why := c01OracleAbs(a0, m, res); cls != "" {
+		c.printf("ORACLE-FAIL %s | %s ; %s | %s | %s\n", cls, before, encMove(m), l1, why)
 	}
+	return res
+}
+
+// c01Dfs: the search pattern: one buffer per ply, every pseudo-legal move of a node tried into the same buffer
+// (rejected attempts included), the parent buffer overwritten by the next sibling; every result judged as usual.
+func c01Dfs(c *ctx, root *tak.Position, depth, budget int) {
+	size := root.Size()
+	bufs := make([]*tak.Position, depth)
+	for i := range bufs {
+		bufs[i] = tak.Alloc(size)
+	}
+	var rec func(p *tak.Position, d int)
+	rec = func(p *tak.Position, d int) {
+		if d == depth || budget <= 0 {
+			return
+		}
+		moves := p.AllMoves(nil)
+		for k := 0; k < 2; k++ {
+			moves = append(moves, malformedMove(c.r, p))
+		}
+		c.r.Shuffle(len(moves), func(i, j int) { moves[i], moves[j] = moves[j], moves[i] })
+		if len(moves) > 14 {
+			moves = moves[:14]
+		}
+		for _, m := range moves {
+			if budget <= 0 {
+				return
+			}
+			budget--
+			res := emitC01Into(c, p, m, bufs[d])
+			if res.next != nil && c.r.Intn(2) == 0 {
+				rec(res.next, d+1)
+			}
+		}
+	}
+	rec(root, 0)
 }
 
 func c01Position(c *ctx, p *tak.Position, every int, nbad int) {
@@ -213,6 +269,12 @@ func runC01(c *ctx) {
 				c01Position(c, p, 4, 8)
 			}
 		}
+	}
+	// search-like walks through reused per-ply buffers (stack-heavy middle games)
+	for g := 0; g < 30*c.scale; g++ {
+		size := 3 + g%6
+		ps, _ := randomGame(r, tak.Config{Size: size}, 8+r.Intn(30), []int{1, 5, -1}[r.Intn(3)], false)
+		c01Dfs(c, ps[len(ps)-1], 3, 250)
 	}
 	boards := 150 * c.scale
 	for b := 0; b < boards; b++ {
